@@ -359,7 +359,7 @@ PY_DURATIONS = [   # text -> (years, months, microseconds of the rest) | None = 
     ("PT0.0001H", (0, 0, 360000)), ("PT1.0001H", (0, 0, 3600 * 10**6 + 360000)), ("P0.00001D", (0, 0, 864000)), ("P0.000001W", (0, 0, 604800)), ("P0.001W", (0, 0, 604800000)),
     ("PT90S", (0, 0, 90 * 10**6)), ("PT150M", (0, 0, 9000 * 10**6)), ("P40D", (0, 0, 40 * 86400 * 10**6)), ("P10DT3725S", (0, 0, (10 * 86400 + 3725) * 10**6)),
     ("PT0.001M", (0, 0, 60000)), ("PT0.0125M", (0, 0, 750000)), ("P1DT0.51H", (0, 0, 86400 * 10**6 + 1836 * 10**6)), ("PT0.505H", (0, 0, 1818 * 10**6)),
-    ("P1.5Y", None), ("P1,5Y", None), ("P1.5M", None), ("P1Y1,5M", None), ("PT1.5H30M", None), ("PT1,5H30M", None), ("P1.5DT1H", None), ("PT1.5M1S", None),
+    ("P1.5Y", None), ("P1,5Y", None), ("P1.5M", None), ("P1Y1,5M", None), ("P1.0Y", None), ("P3,000M", None), ("P1Y2.0M", None), ("P0.0Y", None), ("PT1.5H30M", None), ("PT1,5H30M", None), ("P1.5DT1H", None), ("PT1.5M1S", None),
     ("P1W1D", None), ("P1WT1H", None), ("PT1M1H", None), ("P1D1Y", None), ("P1S", None), ("1D", None), ("PT1H1H", None),
     # every designator repeated, with and without a value, and every adjacent pair out of order
     ("P1Y1Y", None), ("P1M1M", None), ("P1D1D", None), ("PT5M5M", None), ("PT1S1S", None), ("P1W1W", None), ("P0Y0Y", None), ("P0M0M", None), ("P0D0D", None), ("PT0H0H", None),
